@@ -311,6 +311,7 @@ type stateFn func(*lexer) stateFn
 type lexer struct {
 	name        string    // the name of the input; used only during errors.
 	input       string    // the string being scanned.
+	base        ast.Pos   // position of the input within an enclosing input (quoted expressions).
 	state       stateFn   // the next lexing function to enter.
 	pos         ast.Pos   // current position in the input.
 	start       ast.Pos   // start position of this item.
@@ -345,9 +346,16 @@ func lex(name, input string) *lexer {
 
 // lexExpr lexes a single expression.
 func lexExpr(name, input string) *lexer {
+	return lexExprAt(name, input, 0)
+}
+
+// lexExprAt lexes a single expression that is found at the given position of
+// an enclosing input.  Item positions are relative to the enclosing input.
+func lexExprAt(name, input string, base ast.Pos) *lexer {
 	l := &lexer{
 		name:  name,
 		input: input,
+		base:  base,
 		items: make(chan item),
 		state: lexInsideTag,
 	}
@@ -394,7 +402,7 @@ func (l *lexer) emit(t itemType) {
 	if l.pos > ast.Pos(len(l.input)) {
 		l.pos = ast.Pos(len(l.input))
 	}
-	l.lastEmit = item{t, l.pos, l.input[l.start:l.pos]}
+	l.lastEmit = item{t, l.base + l.pos, l.input[l.start:l.pos]}
 	l.items <- l.lastEmit
 	l.start = l.pos
 }
@@ -425,11 +433,24 @@ func (l *lexer) acceptRun(valid string) bool {
 // lineNumber reports which line we're on. Doing it this way
 // means we don't have to worry about peek double counting.
 func (l *lexer) lineNumber(pos ast.Pos) int {
-	return 1 + strings.Count(l.input[:pos], "\n")
+	return 1 + strings.Count(l.input[:l.offset(pos)], "\n")
+}
+
+// offset converts an item position to an offset into the input.
+func (l *lexer) offset(pos ast.Pos) ast.Pos {
+	pos -= l.base
+	if pos < 0 {
+		return 0
+	}
+	if pos > ast.Pos(len(l.input)) {
+		return ast.Pos(len(l.input))
+	}
+	return pos
 }
 
 // columnNumber reports which column in the current line we're on.
 func (l *lexer) columnNumber(pos ast.Pos) int {
+	pos = l.offset(pos)
 	n := strings.LastIndex(l.input[:pos], "\n")
 	if n == -1 {
 		n = 0
@@ -440,7 +461,7 @@ func (l *lexer) columnNumber(pos ast.Pos) int {
 // errorf returns an error item and terminates the scan by passing
 // back a nil pointer that will be the next state, terminating l.nextItem.
 func (l *lexer) errorf(format string, args ...interface{}) stateFn {
-	l.items <- item{itemError, l.pos, fmt.Sprintf(format, args...)}
+	l.items <- item{itemError, l.base + l.pos, fmt.Sprintf(format, args...)}
 	return nil
 }
 
